@@ -27,6 +27,18 @@ Single ==
                              e \in SeqsUpTo(ETokAll, 2), b \in {<<>>, <<"b1">>}}
   \cup {One(c, d, p, e, b) : c \in {"bufdef", "cachedbufdef"}, d \in {Absent, <<>>, <<"str", "d1">>, <<"d1", "d2">>},
                              p \in {Absent, <<"p1">>, <<"n", "p1">>}, e \in ESmall, b \in BFChoices}
+\* Filter CALLS with arguments (abstract tokens; the harness concretises the argument token to a literal and the
+\* callable records the exact argument values it receives), a second decode.<encoding>, a Python builtin used as a
+\* filter (repr) and a context callable named like a builtin (max) -- at every site a filter list can be written:
+\* ${x | ...}, filter= on def / block / <%text> / cached and buffered defs, and <%page expression_filter>
+CallToks == {"k(int)", "k(name)", "k(sp1)", "k(sp2)", "k(tab)", "k(nbsp)", "k(tq)", "k(punct)", "k(kw)", "k(nested)", "k(list)",
+             "k(dict)", "k(two)"}
+ExtraToks == CallToks \cup {"decode.latin1", "repr", "max"}
+Calls ==
+  {One(c, d, p, e, <<>>) : c \in {"expr", "def", "block", "text", "bufdef", "cacheddef"}, d \in {Absent, <<"d1">>}, p \in {Absent, <<"p1">>},
+                           e \in UNION {{<<t>>, <<t, "h">>, <<"f1", t>>} : t \in ExtraToks}}
+  \cup {One("expr", d, p, e, <<>>) : d \in {Absent, <<>>, <<"decode.latin1", "d1">>},
+                                     p \in UNION {{<<t>>, <<"p1", t>>, <<"n", t>>} : t \in CallToks \cup {"decode.latin1"}}, e \in {<<>>, <<"f1">>}}
 \* several constructs compiled one after the other against the same configuration objects
 ItemsA == {It("expr", <<>>), It("expr", <<"f1">>), It("expr", <<"n">>), It("def", <<"f2">>), It("bufdef", <<"f1">>), It("block", <<"h">>)}
 ItemsB == {It("expr", <<>>), It("expr", <<"f1">>), It("bufdef", <<>>), It("text", <<"trim">>)}
@@ -37,7 +49,7 @@ Several ==
   {[D |-> d, P |-> p, BF |-> b, items |-> s, items2 |-> t] :
      d \in {Absent, <<>>, <<"d1">>, <<"str", "d1">>}, p \in {Absent, <<"p1">>, <<"p1", "p2">>, <<"n", "p1">>, <<"x">>},
      b \in (IF Deep THEN {<<>>, <<"b1">>} ELSE {<<"b1">>}), s \in ItemSeqs, t \in Second}
-Configs == Single \cup Several
+Configs == Single \cup Several \cup Calls
 MCInit == \E c \in Configs : FInit(c)
 MCSpec == MCInit /\ [][FNext]_fvars
 PrintTerminal == ~(phase = "done" /\ PrintT(ToJson([cfg |-> cfg, apps |-> apps])) /\ FALSE)
